@@ -512,7 +512,7 @@ Section HM4.
         set (m2 := mkhm K V bs2 ns2 (hsize m0 + 1) (nnext ndf)).
         destruct (hm_rehash_ok K V kdflt vdflt keqb khash keqb_sym
                     (ceilidiv ((hsize m0 + 1) * HM_GROW_n) HM_MAXLF_n) m2 U2 HS2)
-          as [(-> & _)|(m3 & -> & I3 & A3 & S3 & _ & B3 & P3)]; [left; reflexivity|right].
+          as [(-> & _)|(m3 & -> & I3 & A3 & S3 & _ & B3 & P3 & _)]; [left; reflexivity|right].
         cbn [rbind].
         assert (length (hnodes m2) <= length (hnodes m3)) as Hle.
         { destruct I3 as (ch3 & fl3 & I3). specialize (B3 ltac:(cbn; lia)).
